@@ -11,7 +11,8 @@ RULE = ('every interleaving of M/L/Q/C/Z of length <= 4 after an initial MoveTo 
         'monotonically (nearest parameter, simple segments); chord-to-curve distance <= 4*tol by Bernstein certificate in the claimed domain; scaling '
         'path and tolerance by 4 scales the output bit-exactly. Implementation compared with the Float instantiation of the Lean model (structure exact, '
         'vertices to 1e-9 extent). non-trivial = distinct (path, tolerance) with at least one curve')
-KERNEL_DEPS = [r'(QuadBez|CubicBez)\.(eval|subsegment)', r'Vec2\.(dot|cross|hypot)']
+KERNEL_DEPS = [r'(QuadBez|CubicBez)\.(eval|subsegment)', r'Vec2\.(dot|cross|hypot)',
+               r'K2:approxParabola.*', r'K2:QuadBez\.determine_subdiv_t']
 UNPROVED = ['the 4*tol distance bound (kurbo: "not absolutely guaranteed"): decided per instance by exact certificates only',
             'monotone advance for cubics with loops (nearest parameter is ambiguous there: not checked)']
 ASSUMPTIONS = ['structural theorems hold for every scalar type (Float included)']
